@@ -20,7 +20,7 @@ inductive SeekFrom where
   deriving Repr, DecidableEq
 
 /-- `FsInfoSector` (fs.rs): cached free count, next-free hint, dirty latch -/
-structure FsInfo where
+structure FsInfoSt where
   free : Option Nat := none
   next : Option Nat := none
   dirty : Bool := false
@@ -48,7 +48,7 @@ structure FsState where
   volumeId : Nat := 0
   volumeLabel : List Nat := []
   -- interior-mutable part
-  fsInfo : FsInfo := {}
+  fsInfo : FsInfoSt := {}
   curDirty : Bool := false
   curIoErr : Bool := false
   -- options
